@@ -108,3 +108,61 @@ fn c12_lerp_representable_difference_i32_f32() {
     assert!(<i32 as Lerp<f32>>::lerp_unclamped(from, to, 1.0) == to);
     assert!(<i32 as Lerp<f32>>::lerp_unclamped_precise(from, to, 1.0) == to);
 }
+
+// ---- ProgressMapperFn (fn-pointer progress mapper: outside the Verus subset) and a Transition that uses it
+use vek::transition::{ProgressMapper, ProgressMapperFn, Transition};
+static mut SEEN: u32 = 0;
+static mut CALLS: u32 = 0;
+static mut OUT: f32 = 0.0;
+fn recording_mapper(x: f32) -> f32 { unsafe { SEEN = x.to_bits(); CALLS += 1; OUT } }
+
+/// map_progress calls the wrapped function exactly once with the progress value and returns its result; the default mapper is
+/// the identity; From<fn> wraps the given function
+#[kani::proof]
+fn c12_progress_mapper_fn() {
+    let p: f32 = kani::any();
+    let out: f32 = kani::any();
+    unsafe { OUT = out; CALLS = 0; }
+    let m = ProgressMapperFn(recording_mapper as fn(f32) -> f32);
+    let r = m.map_progress(p);
+    assert!(r.to_bits() == out.to_bits() && unsafe { SEEN } == p.to_bits() && unsafe { CALLS } == 1);
+    let d = ProgressMapperFn::<f32>::default();
+    assert!(d.map_progress(p).to_bits() == p.to_bits());
+    let f = ProgressMapperFn::from(recording_mapper as fn(f32) -> f32);
+    unsafe { CALLS = 0; }
+    assert!(f.map_progress(p).to_bits() == out.to_bits() && unsafe { CALLS } == 1);
+}
+/// every Transition accessor, with a fn-pointer mapper, hands (start, end, *mapped* progress) to the Lerp method of its name
+/// (a recording value type stands for T, so that no float interpolation circuit has to be compared)
+#[derive(Copy, Clone, PartialEq, Debug)]
+struct Lv(u8);
+static mut LAST: (u8, u8, u8, u32) = (0, 0, 0, 0);       // (method, from, to, factor bits)
+macro_rules! rec_lerp { ($Self:ty, $get:expr) => {
+    impl<'a> Lerp<f32> for $Self {
+        type Output = Lv;
+        fn lerp_unclamped_precise(from: Self, to: Self, f: f32) -> Lv { unsafe { LAST = (1, $get(from), $get(to), f.to_bits()); } Lv(1) }
+        fn lerp_unclamped(from: Self, to: Self, f: f32) -> Lv { unsafe { LAST = (2, $get(from), $get(to), f.to_bits()); } Lv(2) }
+        fn lerp_precise(from: Self, to: Self, f: f32) -> Lv { unsafe { LAST = (3, $get(from), $get(to), f.to_bits()); } Lv(3) }
+        fn lerp(from: Self, to: Self, f: f32) -> Lv { unsafe { LAST = (4, $get(from), $get(to), f.to_bits()); } Lv(4) }
+    }
+}}
+rec_lerp!(Lv, |x: Lv| x.0);
+rec_lerp!(&'a Lv, |x: &Lv| x.0);
+#[kani::proof]
+fn c12_transition_with_mapper_fn() {
+    let (a, b): (u8, u8) = (kani::any(), kani::any());
+    let p: f32 = kani::any();
+    let out: f32 = kani::any();
+    unsafe { OUT = out; CALLS = 0; }
+    let t = Transition::with_mapper_and_progress(Lv(a), Lv(b), ProgressMapperFn(recording_mapper as fn(f32) -> f32), p);
+    let want = |m: u8| (m, a, b, out.to_bits());
+    assert!(t.into_current_unclamped_precise() == Lv(1) && unsafe { LAST } == want(1) && unsafe { SEEN } == p.to_bits());
+    assert!(t.into_current_unclamped() == Lv(2) && unsafe { LAST } == want(2));
+    assert!(t.into_current_precise() == Lv(3) && unsafe { LAST } == want(3));
+    assert!(t.into_current() == Lv(4) && unsafe { LAST } == want(4));
+    assert!(t.current_unclamped_precise() == Lv(1) && unsafe { LAST } == want(1));
+    assert!(t.current_unclamped() == Lv(2) && unsafe { LAST } == want(2));
+    assert!(t.current_precise() == Lv(3) && unsafe { LAST } == want(3));
+    assert!(t.current() == Lv(4) && unsafe { LAST } == want(4));
+    assert!(unsafe { CALLS } == 8);
+}
